@@ -291,21 +291,6 @@ def checkDump (c : Cfg) (d : DState) (o : Obs) : String × DState :=
       | some f => ("fail:temp_survives_cancel", { d' with reported := f.1 :: d'.reported })
       | none => ("ok", d')
 
-/-- the accounts an operation debits (whoever signs it) -/
-def debited (c : Cfg) : Op → List Addr
-  | .submit who _ _ _ => [who]
-  | .deposit who _ _ => [who]
-  | .send f _ _ => [f]
-  | .msend f _ _ => [f]
-  | .delegate who _ => [who]
-  | .tomod who _ => [who]
-  | .mxfer _ frm _ _ x => if 0 < x then [frm] else []
-  | .mwd _ _ d _ => match getMarkerByDenom c d with | some m => [m.addr] | none => []
-  | .mktwd _ _ _ => [c.market]
-  | .pay src tgt sAmt tAmt => (if sAmt.isEmpty then [] else [src]) ++ (if tAmt.isEmpty then [] else [tgt])
-  | .settle seller buyer _ _ => [seller, buyer]
-  | _ => []
-
 /-- The property on the answer to one operation: an operation that debits an account observed
 as sanctioned must be refused; nobody may be refused for being sanctioned when none of the
 debited accounts is. -/
@@ -313,7 +298,7 @@ def checkOp (d : DState) (op : Op) (impl : String) : String :=
   match (if d.since = 0 then d.obs else none) with
   | none => "-"
   | some o =>
-    let sts := (debited d.s.cfg op).filterMap (fun a => o.san.lookup a)
+    let sts := (Spec.debited d.s.cfg op).filterMap (fun a => o.san.lookup a)
     if sts.isEmpty then "-"
     else if sts.any (· == true) then (if impl.startsWith "ok" then "fail:sanctioned_debit_allowed" else "ok")
     else if impl = "err:sanctioned" then "fail:unsanctioned_refused" else "ok"
